@@ -18,6 +18,7 @@ RULE = (
 ASSUMPTIONS = [
     "the library accepts a solve residual of 1e-6 and clips compartments down to -1e-6 to zero; data implying a negative compartment of magnitude in (0, 1e-5) are outside the alphabet (the levels are -1e-3 and -1, which must be refused)",
     "'refused although a solution exists' is not flagged (the statement does not promise acceptance)",
+    "two population types: a second type with two compartments and one characteristic in its own population (64 x 5 x data variants)",
     "the junction, when present, is entered directly (or defaults to 0) so that the post-redistribution target of every entered quantity is determined by the spec",
 ]
 CASE_TIMEOUT = 60
@@ -68,6 +69,15 @@ def cases(tier):
                             if tier == "quick" and yf != 1.0 and (data not in ("ok", "neg1e-3") or len(entered) > 3):
                                 continue
                             yield dict(withj=withj, fam=list(fam), entered=entered, data=data, yf=yf)
+    # several population types: a second type (compartments x, y, characteristic xy) in its own population
+    for fam in fams[:8]:
+        for entered in (["a", "b", "c"], ["abc"] if "abc" in fam else ["a"], ["a", "b", "c"] + [f for f in fam if f != "frac"]):
+            if any(q not in ("a", "b", "c") and q not in fam for q in entered):
+                continue
+            for e2 in (["x", "y"], ["xy"], ["x", "y", "xy"], ["x", "xy"]):
+                for d2 in ("ok", "off1e-5", "off1", "neg1e-3", "neg1"):
+                    for data in ("ok", "neg1") if tier == "quick" else ("ok", "off1", "neg1e-3", "neg1"):
+                        yield dict(withj=False, fam=list(fam), entered=entered, data=data, yf=1.0, t2=dict(entered=e2, data=d2))
 
 
 def make_spec(case):
@@ -125,6 +135,31 @@ def make_spec(case):
     # declaration order: larger characteristics first
     order = ["abc", "ab", "bc", "nest", "frac"]
     spec["characs"].sort(key=lambda c: order.index(c["name"]))
+    vals2 = {}
+    if case.get("t2"):
+        t2 = case["t2"]
+        x2 = dict(x=7.0, y=3.0)
+        for q in t2["entered"]:
+            vals2[q] = x2["x"] + x2["y"] if q == "xy" else x2[q]
+        tgt2 = t2["entered"][-1]
+        if t2["data"].startswith("off"):
+            vals2[tgt2] += float(t2["data"][3:])
+        elif t2["data"].startswith("neg"):
+            d = float(t2["data"][3:])
+            if tgt2 == "xy" and "x" in t2["entered"]:
+                vals2["xy"] = vals2["x"] - d  # implies y = -d
+            else:
+                vals2[tgt2] = -d
+        spec["ptypes"] = ["ta", "tb"]
+        spec["pops"] = ["pa", "pb"]
+        spec["pop_types"] = {"pa": "ta", "pb": "tb"}
+        for it in spec["comps"] + spec["characs"] + spec["pars"]:
+            it["ptype"] = "ta"
+        spec["comps"] += [dict(name="x", kind="ord", ptype="tb", **({"init": vals2["x"]} if "x" in vals2 else {})), dict(name="y", kind="ord", ptype="tb", **({"init": vals2["y"]} if "y" in vals2 else {}))]
+        spec["characs"].append(dict(name="xy", comps=["x", "y"], ptype="tb", **({"val": vals2["xy"]} if "xy" in vals2 else {})))
+        spec["pars"].append(dict(name="r3", fmt="rate", val=0.5, ptype="tb"))
+        spec["links"].append(["x", "y", "r3"])
+    spec["_vals2"] = vals2
     if case["withj"]:
         spec["comps"].append(dict(name="j", kind="junc", init=10.0))
         spec["pars"] += [dict(name="tj", fmt="rate", val=0.2), dict(name="qa", fmt="proportion", val=0.3), dict(name="qb", fmt="proportion", val=0.7)]
@@ -160,6 +195,21 @@ def run_case(case):
         exp_post = exp + j0 * sum(SHARE.get(mm, 0.0) for mm in mem)
         if abs(got - exp_post) > tol * max(1.0, 1.0):
             vs.append(V("initial-state-differs-from-databook", f"{case}: entered {q} = {val!r} (target {exp_post!r} after junction redistribution) but the run starts with {got!r}", dict(quantity=q)))
+    if case.get("t2"):
+        pb = m.pops[1]
+        y0 = {c.name: float(np.asarray(c.vals)[0]) for c in pb.comps}
+        for n, v in y0.items():
+            if v < 0 or not np.isfinite(v):
+                vs.append(V("negative-initial-compartment", f"{case}: compartment {n} of the second population type starts at {v!r}", None))
+        for q, val in spec["_vals2"].items():
+            got = y0["x"] + y0["y"] if q == "xy" else y0[q]
+            if abs(got - val) > tol:
+                vs.append(V("initial-state-differs-from-databook", f"{case}: second population type: entered {q} = {val!r} but the run starts with {got!r}", dict(quantity=q)))
+        xy = np.asarray(pb.get_charac("xy").vals, dtype=float)
+        if not np.allclose(xy, np.asarray(pb.get_comp("x").vals) + np.asarray(pb.get_comp("y").vals), rtol=1e-9, atol=1e-12):
+            vs.append(V("characteristic-not-sum-of-members", f"{case}: xy is not x + y in the second population type", None))
+        if any(c.name in ("x", "y") for c in pop.comps) or any(c.name in ("a", "b", "c") for c in pb.comps):
+            vs.append(V("population-type-mixup", f"{case}: a population contains compartments of the other population type", None))
     # characteristic consistency on every state
     for ch in pop.characs:
         cv = np.asarray(ch.vals, dtype=float)
